@@ -116,7 +116,7 @@ Qed.
 
 (* ---- extended to `break`, the endless `repeat`, calls of routines and `return` (Lang/Simulation3.v, SimulationTop.v) ----
    Every program made of routine definitions (at the top level, each name once; routines may call each other and themselves) and of the covered
-   statements, if / else, blocks, `repeat while`, counted `repeat n`, `repeat with v from a to b`, `repeat n with v from a to b`, `repeat n with v cycle`, plain `repeat`, `break`, calls `f a b ...` whose arguments
+   statements, if / else, blocks, `repeat while`, counted `repeat n`, `repeat with v from a to b`, `repeat n with v from a to b`, `repeat n with v cycle`, `repeat all / group / location as x [with ...]`, plain `repeat`, `break`, calls `f a b ...` whose arguments
    are ordinary values, and `return`, nested to any depth: the compiled code, loaded (routine bodies moved out of line) and run
    on the machine model from the initial state, finishes with exactly the events of the reference semantics. *)
 From Bardolph Require Import Lang.Builtins Lang.CallFrames Lang.Simulation3 Lang.SimulationTop.
@@ -138,8 +138,8 @@ Print Assumptions C01_program_with_routines_runs_as_its_source_says.
 Theorem C01_statement_simulation :
   forall rt mt, bodies_ok rt mt -> forall inl inr st, SimpleB rt mt inl inr st ->
   forall after im ss s sig ss' fuel, routines_loaded rt mt im -> in_loop_ok inl after -> in_ret_ok inr (m_frames s) ->
-  depth_ok (m_frames s) (zlength (m_stack s)) -> sim ss s -> code_at im (m_pc s) (c_stmt rt mt false after st) ->
-  Sem.exec rt mt fuel false ss st = ROk sig ss' -> outcome after im ss s sig ss' (c_stmt rt mt false after st).
+  in_depth_ok inr s -> sim ss s -> code_at im (m_pc s) (c_stmt rt mt false after st) ->
+  Sem.exec rt mt fuel false ss st = ROk sig ss' -> outcome inr after im ss s sig ss' (c_stmt rt mt false after st).
 Proof. intros rt mt Hb. exact (proj1 (simpleB_simulation rt mt Hb)). Qed.
 Print Assumptions C01_statement_simulation.
 
@@ -167,8 +167,12 @@ Example C01_program_nonvacuous :
                     (SBlock [SIf (RExpr (EBin BLt (EVar "i") (ELit (LInt 2)))) SBreak None; SCall "blink" [RLit (LInt 1); RVar "i"] false; SPrintln (Some (RVar "i"))]);
             SRepeat (LCountWith (RLit (LInt 3)) (WRange "h" (RLit (LInt 10)) (RVar "total"))) (SBlock [SReg R_HUE (RVar "h"); SSet OpAll]);
             SRepeat (LCountWith (RVar "total") (WCycle "c" None)) (SBlock [SReg R_HUE (RVar "c"); SSet OpAll]);
+            SRepeat (LAll "x" (Some (WRange "b" (RLit (LInt 10)) (RLit (LInt 90)))))
+                    (SBlock [SReg R_BRIGHTNESS (RVar "b"); SSet (OpList [Target TLight (NVar "x")]); SIf (RExpr (EBin BGt (EVar "b") (ELit (LInt 60)))) SBreak None;
+                             SRepeat (LGroups "g" None) (SBlock [SPrint (Some (RVar "g")); SOn (OpList [Target TGroup (NVar "g")])])]);
+            SRepeat (LLocations "q" (Some (WCycle "h" None))) (SBlock [SReg R_HUE (RVar "h"); SSet (OpList [Target TLocation (NVar "q")]); SCall "down" [RLit (LInt 1)] false]);
             SPrintln (Some (RVar "total"))] in
-  let w := [mkLight "a" "g" "l" KPlain [0; 0; 0; 0]] in
+  let w := [mkLight "a" "g" "l" KPlain [0; 0; 0; 0]; mkLight "" "g" "m" KPlain [0; 0; 0; 0]; mkLight "c" "" "l" KPlain [0; 0; 0; 0]; mkLight "b" "h" "l" KPlain [0; 0; 0; 0]] in
   Forall (top_stmt_ok (fst (collect p [] [])) (snd (collect p [] []))) p /\ NoDup (map fst (defs_of p)) /\
   exists evs, run_src 400 p w = SFinished evs /\ (12 <= length evs)%nat.
 Proof.
